@@ -82,8 +82,17 @@ def textsUpTo (alphabet : Text) (maxlen : Nat) : List Text :=
 
 def batch (f : Text → Option Char) (ts : List Text) : String :=
   match ts.mapM f with
-  | some cs => String.ofList cs
+  | some cs => "ok " ++ String.ofList cs
   | none => "panic"
+
+def optAnswer : Option Bool → String
+  | some b => String.singleton (tf b)
+  | none => "err"
+
+def parseNatTok (tok : String) : Option Nat :=
+  match tok.toList with
+  | 'i' :: ds => (String.ofList ds).toNat?
+  | _ => none
 
 /-! ### rulesets, contexts, events -/
 
@@ -182,6 +191,14 @@ def parseMatch (rest : List String) : Option (Ruleset × Ctx × PJ) := do
 
 def handle (toks : List String) : String :=
   match toks with
+  | ["c12.count", is, n] =>
+    match parseText is, parseNatTok n with
+    | some is, some n => optAnswer (memberCountStr is n)
+    | _, _ => "bad-op"
+  | ["c12.spec.count", is, n] =>
+    match parseText is, parseNatTok n with
+    | some is, some n => optAnswer (Spec.Push.memberCountDecide is n)
+    | _, _ => "bad-op"
   | [op, p, s] =>
     match parseText p, parseText s with
     | some p, some s =>
